@@ -62,8 +62,8 @@ func DefaultEffects(p *Program) *Effects {
 			"bytes.Buffer.*", "hash.Hash.Write", "hash.Hash.Sum", "hash.Hash.Reset", "io.Writer.Write", "sha3.state.*", "sha3.KeccakState.*", "crypto.KeccakState.*",
 		},
 		ResultAliasesDst: []string{"snappy.Decode", "snappy.Encode", "secretbox.Seal", "secretbox.Open", "strconv.Append*", "hex.AppendEncode"},
-		FreshResult: []string{"big.NewInt", "sha3.NewLegacyKeccak256", "sha3.NewKeccak256", "sha256.New", "ripemd160.New", "big.Int.Set*", "big.Int.Add", "big.Int.Sub", "big.Int.Mul", "big.Int.Div", "big.Int.Mod", "big.Int.Exp", "big.Int.Neg", "big.Int.Abs", "big.Int.Lsh", "big.Int.Rsh", "big.Int.And", "big.Int.Or", "big.Int.Xor", "big.Int.Not", "big.Int.Quo"},
-		memo:        map[*ssa.Function]*effRes{},
+		FreshResult:      []string{"big.NewInt", "sha3.NewLegacyKeccak256", "sha3.NewKeccak256", "sha256.New", "ripemd160.New", "big.Int.Set*", "big.Int.Add", "big.Int.Sub", "big.Int.Mul", "big.Int.Div", "big.Int.Mod", "big.Int.Exp", "big.Int.Neg", "big.Int.Abs", "big.Int.Lsh", "big.Int.Rsh", "big.Int.And", "big.Int.Or", "big.Int.Xor", "big.Int.Not", "big.Int.Quo"},
+		memo:             map[*ssa.Function]*effRes{},
 	}
 }
 
